@@ -517,7 +517,8 @@ package sam
 //@   ensures [len] len(result.Seq) == ite(trim && !pad, trimend - trimstart + 1, len(rawseq))
 //@   ensures [pad] implies(pad, forall(j, 0, len(rawseq), result.Seq[j] == ite(trim && (j < trimstart-1 || j >= trimend), byte('N'), ite(old(rawseq[j]) == '*', byte('N'), old(rawseq[j])))))
 //@   ensures [nopad.kept] implies(!pad, forall(j, 0, len(result.Seq), implies(old(rawseq[j + ite(trim, trimstart-1, 0)]) != '*', result.Seq[j] == old(rawseq[j + ite(trim, trimstart-1, 0)]))))
-//@   ensures [nopad.fill] implies(!pad, forall(j, 0, len(result.Seq), implies(old(rawseq[j + ite(trim, trimstart-1, 0)]) == '*', result.Seq[j] == '-' || result.Seq[j] == 'N')))
+//@   ensures [nopad.flank] implies(!pad, forall(j, 0, len(result.Seq), implies(old(rawseq[j + ite(trim, trimstart-1, 0)]) == '*' && (forall(k, 0, j + ite(trim, trimstart-1, 0), !isLetterB(old(rawseq[k]))) || forall(k, j + ite(trim, trimstart-1, 0) + 1, len(rawseq), !isLetterB(old(rawseq[k])))), result.Seq[j] == '-')))
+//@   ensures [nopad.internal] implies(!pad, forall(j, 0, len(result.Seq), implies(old(rawseq[j + ite(trim, trimstart-1, 0)]) == '*' && exists(k, 0, j + ite(trim, trimstart-1, 0), isLetterB(old(rawseq[k]))) && exists(k, j + ite(trim, trimstart-1, 0) + 1, len(rawseq), isLetterB(old(rawseq[k]))), result.Seq[j] == 'N')))
 
 //@ # getSeqFromBlock: one row per record via getOneLine, flattened when there are several
 //@ func getSeqFromBlock
